@@ -239,3 +239,56 @@ pub fn gen_and_run<G: AffineRepr>(curve: &str, ci: u64, seed: u64, tier: &str) -
     });
     outs
 }
+
+
+/// Generators must not depend on the process: objects of two curves living in one process, created and grown in
+/// interleaved order (the labels of the chains do not name the curve, so any process-wide state keyed by label
+/// would mix the curves).  Returns the first deviation from the independent derivation, or "-".
+pub fn interleave_pair<A: AffineRepr, B: AffineRepr>(na: &str, nb: &str) -> String {
+    fn check<G: AffineRepr>(g: &BulletproofGens<G>, cap: usize, parties: usize, who: &str, step: &str) -> Option<String> {
+        for j in 0..parties {
+            let sg = spec_chain::<G>(true, j as u32, cap);
+            let sh = spec_chain::<G>(false, j as u32, cap);
+            let rg: Vec<G> = g.G(cap, parties).skip(j * cap).take(cap).copied().collect();
+            let rh: Vec<G> = g.H(cap, parties).skip(j * cap).take(cap).copied().collect();
+            if let Some(i) = (0..cap).find(|&i| rg.get(i) != sg.get(i)) { return Some(format!("{}:{}:G[{}][{}]", who, step, j, i)); }
+            if let Some(i) = (0..cap).find(|&i| rh.get(i) != sh.get(i)) { return Some(format!("{}:{}:H[{}][{}]", who, step, j, i)); }
+        }
+        None
+    }
+    let scen: [(usize, usize, Option<usize>, usize); 7] =
+        [(8, 4, None, 16), (8, 8, None, 16), (8, 2, Some(6), 16), (5, 3, Some(5), 9), (1, 1, None, 2), (16, 0, Some(16), 17), (3, 7, Some(20), 11)];
+    for (k, (c, a0, a_inc, c2)) in scen.iter().enumerate() {
+        let parties = 2usize;
+        let mut b = BulletproofGens::<B>::new(*c, parties);
+        let mut a = BulletproofGens::<A>::new(*a0, parties);
+        if let Some(x) = a_inc { a.increase_capacity(*x); }
+        b.increase_capacity(*c2);
+        let step = format!("scenario{}(B=new({c});A=new({a0}){};B.increase({c2}))", k, a_inc.map(|x| format!(".increase({})", x)).unwrap_or_default());
+        if let Some(e) = check::<B>(&b, *c2, parties, nb, &step) { return e.replace(' ', "_"); }
+        a.increase_capacity(*c2 + 3);
+        if let Some(e) = check::<A>(&a, *c2 + 3, parties, na, &format!("{};A.increase({})", step, *c2 + 3)) { return e.replace(' ', "_"); }
+        // a fresh object of either curve afterwards is still the specification
+        let b2 = BulletproofGens::<B>::new(*c2 + 1, parties);
+        if let Some(e) = check::<B>(&b2, *c2 + 1, parties, nb, &format!("{};B.new({})", step, *c2 + 1)) { return e.replace(' ', "_"); }
+    }
+    String::from("-")
+}
+
+pub fn interleave_all() -> Out {
+    use crate::{C25519, Secq, Zorro};
+    let mut bad = String::from("-");
+    let rs = [
+        interleave_pair::<Secq, Zorro>("secq256k1", "zorro"), interleave_pair::<Zorro, Secq>("zorro", "secq256k1"),
+        interleave_pair::<Secq, C25519>("secq256k1", "curve25519"), interleave_pair::<C25519, Secq>("curve25519", "secq256k1"),
+        interleave_pair::<Zorro, C25519>("zorro", "curve25519"), interleave_pair::<C25519, Zorro>("curve25519", "zorro"),
+    ];
+    for r in rs.iter() { if r != "-" && bad == "-" { bad = r.clone(); } }
+    let id = String::from("ginter");
+    Out {
+        id: id.clone(),
+        coq: String::from("Eval vm_compute in [[0%Z]].\n"),
+        obs: format!("{} 0\n{} 92 {}\n", id, id, bad),
+        summary: format!("{} all tag=gens-interleave bad={} scenarios=42 prover=0 basis=1,0\n", id, bad),
+    }
+}
